@@ -91,22 +91,43 @@ fn shape_profile() -> Profile {
 
 fn main() {
     let mut ck = Check::new("C10");
-    ck.rule("TODO");
+    ck.rule(
+        "Graph level (sub-checks graph-general, graph-shape-biased, shape-chains): a case is a generated ONNX model plus seeds of 2 \
+         alternate instantiations of its symbolic input dims (same symbol = same size everywhere; sizes 0..6 with 0 and 1 frequent). \
+         Models come from the typed vc-onnxgen grammar (general profile and a profile weighted towards Shape/ShapeArith/Reshape/Slice/...) \
+         and from a dedicated generator of shape-computing chains (Shape/Size/constants incl. negative, zero and integral floats -> \
+         Gather/Unsqueeze/Squeeze/Concat/Add/Sub/Mul/Div/Min/Max/Neg/Abs/Equal/Where/Cast/Identity/Slice/Reshape -> sinks Reshape/Expand/\
+         ConstantOfShape/Range/Tile/Slice/Pad/TopK/OneHot/Resize/Split/Squeeze/Unsqueeze/Reduce*/Flatten/Transpose/Gather/Concat/binary ops, \
+         whose outputs feed Shape again). Every named value is made a graph output, the model is loaded without optimisation, \
+         infer_shapes() is called with the loader's On and Strict options, every operator is run with Operator::run for each \
+         instantiation, and each produced value is compared with what inference said about it (rank, fixed dims, symbol consistency, \
+         evaluated symbolic dim/element expressions, Shape::Constant elements, dtype); then the same bytes are loaded optimised with \
+         shape inference off and on and all outputs compared. Operator level (operator-level-*): every operator node of a model \
+         (all-ops grammar profile / shape chains) is inferred on its own from case-chosen symbolic descriptions of its concrete inputs \
+         (fixed shape, symbols for some/all dims, fixed element values, symbolic element values, unknown), 3 description variants per model. \
+         Non-trivial = execution produced a value for which inference reported at least one fixed number (dim, constant element) \
+         or an expression/symbol that evaluated, and it was compared. Distinct = distinct raw case.",
+    );
+    ck.assume("an operator that fails or panics at run time imposes no requirement (values downstream are simply absent)");
+    ck.assume("symbolic expressions are evaluated with SymExpr::eval under the instantiation's symbol assignment plus synthetic symbols learned from the first dim/element they name; an expression that does not evaluate (division by zero, overflow, unknown symbol) imposes no requirement");
+    ck.assume("the harness's replica of the graph driver (same InferShapes impls, same constant conversion) is used for symbolic expressions only where its rendering equals the real driver's result for that value");
+    ck.assume("end-to-end clause compares optimised models with shape inference off vs on (rtol 2e-3 / atol 2e-4 for floats, ints exact) so that optimiser defects unrelated to inference are not attributed to C10; values computed from empty tensors and values downstream of an already reported violation are excluded from the value comparison");
+    ck.assume("operator level: symbolic element values are only given for integer tensors and for float *constants* with integral values (what the loader feeds to inference); for float outputs only the shape part of an inferred value is compared at this level");
     ck.set_threads(12);
     let known = known_signatures();
-    let n = ck.pick(8000, 240_000);
+    let n = ck.pick(6000, 180_000);
     let strat = || (raw_graph(3, 14).prop_map(GraphCase::Raw), proptest::collection::vec(any::<u32>(), 2)).prop_map(|(g, inst)| GCase { g, inst });
     let general = Profile::general();
     ck.prop_export("graph-general", n, strat, |c| graph_oracle(&general, &known, c, true), |c| GCase { g: c.g.export(&general), inst: c.inst.clone() });
     let sp = shape_profile();
     ck.prop_export("graph-shape-biased", n, strat, |c| graph_oracle(&sp, &known, c, true), |c| GCase { g: c.g.export(&sp), inst: c.inst.clone() });
     let cstrat = || (raw_chain(16).prop_map(ChainCase::Raw), proptest::collection::vec(any::<u32>(), 2)).prop_map(|(g, inst)| CCase { g, inst });
-    ck.prop_export("shape-chains", ck.pick(24_000, 720_000), cstrat, |c| chain_oracle(&known, c), |c| CCase { g: c.g.export(), inst: c.inst.clone() });
+    ck.prop_export("shape-chains", ck.pick(16_000, 480_000), cstrat, |c| chain_oracle(&known, c), |c| CCase { g: c.g.export(), inst: c.inst.clone() });
     // operator level
     let all = Profile::all_ops();
     let ostrat = || (raw_graph(3, 10).prop_map(GraphCase::Raw), proptest::collection::vec(any::<u32>(), 3)).prop_map(|(g, inst)| GCase { g, inst });
-    ck.prop_export("operator-level-all-ops", ck.pick(6000, 180_000), ostrat, |c| op_oracle(&all, &known, c), |c| GCase { g: c.g.export(&all), inst: c.inst.clone() });
+    ck.prop_export("operator-level-all-ops", ck.pick(5000, 150_000), ostrat, |c| op_oracle(&all, &known, c), |c| GCase { g: c.g.export(&all), inst: c.inst.clone() });
     let cstrat3 = || (raw_chain(12).prop_map(ChainCase::Raw), proptest::collection::vec(any::<u32>(), 3)).prop_map(|(g, inst)| CCase { g, inst });
-    ck.prop_export("operator-level-shape-chains", ck.pick(8000, 240_000), cstrat3, |c| op_chain_oracle(&known, c), |c| CCase { g: c.g.export(), inst: c.inst.clone() });
+    ck.prop_export("operator-level-shape-chains", ck.pick(6000, 180_000), cstrat3, |c| op_chain_oracle(&known, c), |c| CCase { g: c.g.export(), inst: c.inst.clone() });
     ck.finish();
 }
